@@ -447,9 +447,46 @@ def run_jpeg(R, quick):
 
 # ------------------------------------------------------------------ entry points
 
+def run_witnesses(R):
+    """The recorded witness of every listed finding is replayed on every run."""
+    for f in R.findings:
+        w = f.get("witness", {})
+        if "buf_hex" not in w:
+            continue
+        buf = bytes.fromhex(w["buf_hex"])
+        shape = w["chunk_size"]
+        C = w["num_channels"]
+        with warnings.catch_warnings():
+            warnings.simplefilter("ignore")
+            if f["id"] == F_STRUCT:
+                dt, blk = w["data_type"], w["block_size"]
+                enc = c02.make_encoder(dt, C, blk)
+                impl = c02.impl_arr(outcome_of(lambda: enc.decode(buf, shape)))
+                mrep, mguard = R.model.call(*c02.dec_request(dt, C, blk, shape, buf))
+                case = {"codec": "cseg", "kind": "witness", "dt": dt, "C": C, "shape": shape, "blk": blk, "buf": buf}
+                R.case(case, nontrivial=True)
+                if impl != c02.model_arr(mrep, dt):
+                    R.disagree("cseg decode vs cseg_decode (finding witness)", case, impl, c02.model_arr(mrep, dt))
+                if impl == ["Crash", "StructError"] and cseg_region(buf, C, shape, blk) and str(mguard) == "false":
+                    R.known(F_STRUCT)
+                else:
+                    R.notes.append(f"witness of {F_STRUCT} no longer fails: {impl}")
+            elif f["id"] == F_JPEG:
+                enc = make_jpeg(C)
+                impl = c02.impl_arr(outcome_of(lambda: enc.decode(buf, shape)))
+                _pil, info = pil_oracle(buf)
+                case = {"codec": "jpeg", "kind": "witness", "C": C, "shape": shape, "buf": buf}
+                R.case(case, nontrivial=True)
+                if impl == ["IOErr"] and info is not None and info[0] == "loadfail":
+                    R.known(F_JPEG)
+                else:
+                    R.notes.append(f"witness of {F_JPEG} no longer fails: {impl}")
+
+
 def run(R):
     R.rule = RULE
     quick = R.tier == "quick"
+    run_witnesses(R)
     run_cseg(R, quick)
     run_raw(R, quick)
     run_jpeg(R, quick)
